@@ -85,3 +85,70 @@ def frozen_clock():
 
 
 frozen_clock.bounded = "410 generations (60 of them fresh / regenerated from older ids) for one identity with a frozen / stepped clock; native"
+
+
+@table("bulk-origin-reassignment", prop="C16")
+def bulk_origin_reassignment():
+    """update_avps({"origin_host": identity}) on real messages (clock stepped by a second between identity switches,
+    and before every update, so the recorded finding KF-C16-reset is not exercised): the message's Session-Id is regenerated, starts with the
+    NEW identity, has the RFC 6733 form, differs from every Session-Id generated before, and is what the message
+    serialises; a Session-Id given explicitly in the same update is carried unchanged"""
+    import datetime
+    import re
+    import bromelia._internal_utils as IU
+    import bromelia.base as B
+    from bromelia.avps import SessionIdAVP, OriginHostAVP, OriginRealmAVP
+    real = IU.datetime.datetime
+
+    class Stepped(datetime.datetime):
+        now_value = datetime.datetime(2026, 3, 4, 5, 6, 7)
+
+        @classmethod
+        def utcnow(cls):
+            return cls.now_value
+    IU.datetime.datetime = Stepped
+    bad, seen, n = [], set(), 0
+    try:
+        IU.SessionHandler.reset()
+        def fresh_messages():
+            out = []
+            for i in range(6):
+                m = B.DiameterMessage(B.DiameterHeader(), [SessionIdAVP("a.example"), OriginHostAVP("a.example"),
+                                                           OriginRealmAVP("example")])
+                seen.add(m.session_id_avp.data)
+                out.append(m)
+            return out
+        # (a message is updated ONCE here: a second update_avps on the same message fails on the pinned tree,
+        # recorded finding KF-C11-update-avp)
+        for rnd, ident in enumerate(("a.example", "b.example", "b.example", "c.d.example")):
+            Stepped.now_value = Stepped.now_value + datetime.timedelta(seconds=1)
+            msgs = fresh_messages()
+            for m in msgs[::-1] if rnd % 2 else msgs:
+                n += 1
+                # one identity switch per clock second at most (two within one second: KF-C16-reset)
+                Stepped.now_value = Stepped.now_value + datetime.timedelta(seconds=1)
+                m.update_avps({"origin_host": ident})
+                sid = m.session_id_avp.data
+                text = sid.decode("utf-8", "replace")
+                if sid in seen:
+                    bad.append("round %d: Session-Id %r issued before" % (rnd, text))
+                elif not re.fullmatch(re.escape(ident) + r";\d+;\d+(;.*)?", text):
+                    bad.append("round %d: %r is not `%s;high;low[;optional]`" % (rnd, text, ident))
+                elif sid not in m.dump() or m.header.get_length() != len(m.dump()):
+                    bad.append("round %d: the serialised message does not carry %r / length mismatch" % (rnd, text))
+                seen.add(sid)
+        msgs = fresh_messages()
+        m = msgs[0]
+        m.update_avps({"origin_host": "z.example", "session_id": b"given;1;2"})
+        n += 1
+        if m.session_id_avp.data != b"given;1;2":
+            bad.append("an explicitly supplied Session-Id was not carried unchanged: %r" % m.session_id_avp.data)
+    except BaseException as e:  # noqa
+        bad.append("raised %s: %s" % (type(e).__name__, e))
+    finally:
+        IU.datetime.datetime = real
+        IU.SessionHandler.reset()
+    return [("regenerated-session-ids-are-new-and-carry-the-new-identity", not bad, {"checked": n, "failing": bad[:5]})]
+
+
+bulk_origin_reassignment.bounded = "6 messages x 4 re-assignments (same and new identities, clock stepped between rounds); native"
